@@ -66,6 +66,12 @@ class Env:
         self.delivered = {}        # location -> parsed statements of the delivered text
         self.reenter = None
         self.raw_urls = []
+        # nested, independent uses of the library inside this world's callbacks (real runs only)
+        self.interlopers = {}
+        if who == 'real':
+            for f in plan.get('interlopers', ()):
+                self.interlopers.setdefault((f['fn'], f['occ']), f['kind'])
+        self.interference = []
 
     # -- recording ---------------------------------------------------------------------------
     def rec(self, kind, *payload, ctx=None):
@@ -75,9 +81,21 @@ class Env:
             self.on_event(ev)
 
     # -- host functions ------------------------------------------------------------------------
+    def _interloper(self, site, occ):
+        kind = self.interlopers.get((site, occ))
+        if kind is not None:
+            from . import interloper
+            self.fired['interloper:' + kind] += 1
+            bad = interloper.run(kind)
+            if bad is not None:
+                bad['site'] = [site, occ]
+                self.interference.append(bad)
+
     def host(self, name, args, invoke, ctx=None):
         self.occ[name] += 1
         occ = self.occ[name]
+        if self.interlopers:
+            self._interloper(name, occ)
         fault = self.faults.get((name, occ))
         if fault is not None:
             self.fired['host_raise:' + fault['exc']] += 1
@@ -125,6 +143,9 @@ class Env:
 
     # -- log -----------------------------------------------------------------------------------
     def log(self, text, ctx=None):
+        if self.interlopers:
+            self.occ['log'] += 1
+            self._interloper('log', self.occ['log'])
         self.rec('log', text, ctx=ctx)
 
     # -- fetch (VFS) ---------------------------------------------------------------------------
@@ -132,6 +153,8 @@ class Env:
         """Returns text or None; raises HostFailure for a raising fetch function."""
         self.occ['fetch'] += 1
         occ = self.occ['fetch']
+        if self.interlopers:
+            self._interloper('fetch', occ)
         norm = _resolve.normalise(url) if isinstance(url, str) else None
         self.raw_urls.append(url)
         fault = self.fetch_faults.get(occ)
